@@ -3,6 +3,7 @@ package main
 import (
 	"strconv"
 	"strings"
+	"time"
 	"unicode/utf8"
 )
 
@@ -52,6 +53,13 @@ func genCanonValue(r *Rng, pf *PField, inDomain bool) (string, bool) {
 			off = r.Intn(2*50400+1) - 50400 // any second within +-14 h
 		}
 		wall := int64(0x10000000 + r.U64()%0xE0000000)
+		if r.Chance(1, 5) {
+			// a location with daylight saving time: the offset follows from the instant
+			// (summer and winter values side by side in one File)
+			unix := fitEpochUnix + int64(0x10000000+r.U64()%0x90000000)
+			_, o := time.Unix(unix, 0).In(dstZone()).Zone()
+			return canonTimeVal(unix, o) + "D", true
+		}
 		// instant such that wall clock = instant + off
 		return canonTimeVal(fitEpochUnix+wall-int64(off), off), true
 	case kindLat:
@@ -165,6 +173,28 @@ func genMsgFields(r *Rng, g uint16, o MFOpts) map[int]string {
 		inDom := o.InDomain || !r.Chance(1, 8)
 		if v, ok := genCanonValue(r, pf, inDom); ok {
 			out[pf.SIndex] = v
+		}
+	}
+	// related fields holding the same number (a 16-bit field and its 32-bit
+	// "enhanced" twin, as devices write them): an encoder must not treat one
+	// of them as redundant
+	if r.Chance(1, 3) {
+		for _, pf := range pfs {
+			if !strings.HasPrefix(pf.Name, "Enhanced") || pf.Array {
+				continue
+			}
+			tw := fieldByName(g, strings.TrimPrefix(pf.Name, "Enhanced"))
+			if tw == nil || tw.Array || baseOf(tw.Base).Size != 2 || baseOf(pf.Base).Size != 4 {
+				continue
+			}
+			if g == gRecord && !o.Accum && (accumSources[pf.Num] || accumSources[tw.Num]) {
+				continue
+			}
+			if _, has := out[tw.SIndex]; !has && !r.Chance(1, 2) {
+				continue
+			}
+			v := "u" + strconv.Itoa(r.Intn(0xFFFF))
+			out[tw.SIndex], out[pf.SIndex] = v, v
 		}
 	}
 	return out
